@@ -84,6 +84,49 @@ func corpus() []updsim.History {
 			hs = append(hs, h)
 		}
 	}
+	// a channel with a stored pts but no worker at startup (access hash missing while loading):
+	// its first update is ahead of the stored pts
+	{
+		cfg := updsim.Config{Base: []int{0, 0, 10}, Dormant: []bool{false, false, true}}
+		h := updsim.History{Cfg: cfg}
+		for i := 1; i <= 10; i++ {
+			h.Log = append(h.Log, E(i, updsim.KCMsg, 2, 10+i, 1))
+		}
+		h.Ops = []updsim.Op{{K: updsim.OpStartup, Vis: []int{0, 0, 10}}, {K: updsim.OpPush, Vis: []int{0, 0, 20}, Items: []int{10}, CID: 1}}
+		h.Ops = append(h.Ops, updsim.FinalOps(cfg, []int{0, 0, 20})...)
+		hs = append(hs, h)
+	}
+	// the result of our own action (HandleAffected) overtakes the update before it, common and channel
+	for _, seq := range []int{0, 2} {
+		cfg := updsim.Config{Base: []int{0, 0, 0}}
+		km, ko := updsim.KMsg, updsim.KOther
+		if seq == 2 {
+			km, ko = updsim.KCMsg, updsim.KCOther
+		}
+		h := updsim.History{Cfg: cfg, Log: []updsim.Entry{E(1, km, seq, 1, 1), E(2, ko, seq, 2, 1), E(3, km, seq, 3, 1)}}
+		v := []int{0, 0, 0}
+		v[seq] = 3
+		h.Ops = []updsim.Op{{K: updsim.OpStartup, Vis: []int{0, 0, 0}}, {K: updsim.OpAffected, Vis: v, Items: []int{2}},
+			{K: updsim.OpPush, Vis: v, Items: []int{1}, CID: 1}, {K: updsim.OpPush, Vis: v, Items: []int{3}, CID: 2}}
+		h.Ops = append(h.Ops, updsim.FinalOps(cfg, v)...)
+		hs = append(hs, h)
+	}
+	// fault sequences: the difference fetched on a gap timeout fails once (common, channel), then recovery
+	for _, seq := range []int{0, 2} {
+		cfg := updsim.Config{Base: []int{0, 0, 0}}
+		km := updsim.KMsg
+		if seq == 2 {
+			km = updsim.KCMsg
+		}
+		h := updsim.History{Cfg: cfg, Log: []updsim.Entry{E(1, km, seq, 1, 1), E(2, km, seq, 2, 1), E(3, km, seq, 3, 1)}}
+		v := []int{0, 0, 0}
+		v[seq] = 3
+		h.Ops = []updsim.Op{{K: updsim.OpStartup, Vis: []int{0, 0, 0}}, {K: updsim.OpPush, Vis: v, Items: []int{2}, CID: 1}}
+		fin := updsim.FinalOps(cfg, v)
+		fin[0].Fail, fin[0].Seq = true, seq
+		h.Ops = append(h.Ops, fin...)
+		hs = append(hs, h)
+	}
 	// a channel without storage record, tracked by its first pushed update
 	{
 		cfg := updsim.Config{Base: []int{0, 0, 4}, Untracked: []bool{false, false, true}}
@@ -147,7 +190,9 @@ func main() {
 			continue
 		}
 		sh, ix := -1, 0
-		if res.Interference {
+		if res.NoModel {
+			c.Count("affected-results(oracle only, not modelled)")
+		} else if res.Interference {
 			c.Count("timer-interference(no correspondence)")
 		} else {
 			sh, ix = c.Case(updsim.CoqCase(res, nil, nil), res.H)
